@@ -92,7 +92,12 @@ func runShadow(p *Plan) *shadowRun {
 		auto[t.Name] = &n
 	}
 	cur := sr.s0.clone()
-	for _, b := range p.Branches {
+	for bi, b := range p.Branches {
+		for _, f := range p.Foreign {
+			if f.Before == bi+1 {
+				applyForeign(cur, f)
+			}
+		}
 		var effs []Effect
 		for i := range b.Stmts {
 			s := &b.Stmts[i]
@@ -317,6 +322,11 @@ func buildScenario(p *Plan) (atrun.Scenario, *stepIdx) {
 	g := atrun.Step{Op: "gtx", End: "rollback"}
 	for bi, b := range p.Branches {
 		var idx []int
+		for _, f := range p.Foreign {
+			if f.Before == bi+1 {
+				g.Steps = append(g.Steps, atrun.Step{Op: "exec", Via: "bare", SQL: f.SQL, NoCtx: true})
+			}
+		}
 		conn := fmt.Sprintf("c%d", bi)
 		if b.Explicit {
 			g.Steps = append(g.Steps, atrun.Step{Op: "tx_begin", Conn: conn})
@@ -350,7 +360,9 @@ func buildScenario(p *Plan) (atrun.Scenario, *stepIdx) {
 	}
 	ix.d1 = add(atrun.Step{Op: "dump"})
 	for _, f := range p.Foreign {
-		add(atrun.Step{Op: "exec", Via: "bare", SQL: f.SQL})
+		if f.Before == 0 {
+			add(atrun.Step{Op: "exec", Via: "bare", SQL: f.SQL})
+		}
 	}
 	if p.Corrupt >= 0 {
 		add(atrun.Step{Op: "exec", Via: "bare", SQL: fmt.Sprintf("UPDATE undo_log SET rollback_info = 'not an undo log' WHERE branch_id = %d", p.Corrupt+1)})
@@ -364,13 +376,40 @@ func buildScenario(p *Plan) (atrun.Scenario, *stepIdx) {
 			}
 			add(atrun.Step{Op: "db_fault", Fault: &fakedb.Fault{Kinds: faultKinds, Pattern: faultPattern, Skip: d.Fault, Count: 1, Action: act}})
 		}
+		if d.Hold != "" {
+			add(atrun.Step{Op: "tx_begin", Via: "bare", Conn: "holder"})
+			add(atrun.Step{Op: "query", Via: "bare", Conn: "holder", SQL: holdSQL(p, d)})
+		}
 		ix.deliveries = append(ix.deliveries, add(atrun.Step{Op: "phase2", Action: "rollback", Gtx: 0, Branch: d.Branch}))
 		if d.Fault >= 0 {
 			add(atrun.Step{Op: "db_fault_clear"})
 		}
+		if d.Hold != "" {
+			add(atrun.Step{Op: "tx_rollback", Via: "bare", Conn: "holder"})
+			add(atrun.Step{Op: "conn_close", Via: "bare", Conn: "holder"})
+		}
 		ix.dumps = append(ix.dumps, add(atrun.Step{Op: "dump"}))
 	}
 	return sc, ix
+}
+
+// holdSQL: the locking read of the other connection
+func holdSQL(p *Plan, d Delivery) string {
+	undo := fmt.Sprintf("SELECT branch_id FROM undo_log WHERE branch_id = %d FOR UPDATE", d.Branch+1)
+	if d.Hold != "row" {
+		return undo
+	}
+	sr := runShadow(p)
+	if d.Branch < len(sr.effects) {
+		for i := len(sr.effects[d.Branch]) - 1; i >= 0; i-- {
+			e := sr.effects[d.Branch][i]
+			if len(e.Rows) > 0 && e.Kind != "delete" {
+				t := tableOf(p, e.Table)
+				return "SELECT * FROM " + t.Name + " WHERE " + litWhere(t, e.Rows[0].Key) + " FOR UPDATE"
+			}
+		}
+	}
+	return undo
 }
 
 // ---------------------------------------------------------------- observed images
@@ -403,19 +442,23 @@ func imageRows(t *Table, img *atrun.Image) ([]Row, []bool, bool) {
 		}
 		seenKey := 0
 		for _, c := range r {
-			v, ok := imageVal(c.Value)
-			if !ok {
-				return nil, nil, false
-			}
 			hit := false
 			for i, k := range t.Keys {
 				if strings.EqualFold(k.Name, c.Name) {
+					v, ok := canonCell(k, c.Value.K, c.Value.V)
+					if !ok {
+						return nil, nil, false
+					}
 					row.Key[i], hit = v, true
 					seenKey++
 				}
 			}
 			for i, k := range t.Cols {
 				if strings.EqualFold(k.Name, c.Name) {
+					v, ok := canonCell(k, c.Value.K, c.Value.V)
+					if !ok {
+						return nil, nil, false
+					}
 					row.Vals[i], hit = v, true
 					if ri == 0 {
 						mask[i] = true
@@ -476,6 +519,13 @@ func observedImages(p *Plan, u *atrun.UndoRow) ([]ImageJ, bool) {
 // ---------------------------------------------------------------- one case
 
 func journalOf(tr *atrun.Trace, s *atrun.StepResult) (fired bool, ops int) {
+	fired, ops, _ = journalOf3(tr, s)
+	return
+}
+
+// journalOf3 also returns the index (among the counted calls) of the first call that failed, -1 if none
+func journalOf3(tr *atrun.Trace, s *atrun.StepResult) (fired bool, ops int, firstErr int) {
+	firstErr = -1
 	for _, e := range tr.Journal {
 		if e.Seq <= s.SeqFrom || e.Seq > s.SeqTo || e.DB == nil {
 			continue
@@ -486,6 +536,9 @@ func journalOf(tr *atrun.Trace, s *atrun.StepResult) (fired bool, ops int) {
 		switch e.DB.Kind {
 		case "BEGIN", "EXEC", "QUERY", "PREPARE", "STMT_EXEC", "STMT_QUERY", "COMMIT":
 			if !strings.Contains(strings.ToUpper(e.DB.SQL), "INFORMATION_SCHEMA") {
+				if e.DB.Err != "" && firstErr < 0 {
+					firstErr = ops
+				}
 				ops++
 			}
 		}
@@ -588,6 +641,15 @@ func runPlan(p *Plan, faultAt int) (*CaseJ, int) {
 				ok = false
 			}
 		}
+		var early []Foreign
+		for _, f := range p.Foreign {
+			if f.Before == bi+1 {
+				early = append(early, f)
+			}
+		}
+		if len(early) > 0 {
+			c.Events = append(c.Events, EventJ{E: "foreign", Writes: early, Fault: -1, Out: -1})
+		}
 		ev := EventJ{E: "branch", Stmts: sr.effects[bi], OK: ok, Fault: -1, Out: -1}
 		if bi < len(bids) {
 			ev.B = bids[bi]
@@ -631,10 +693,16 @@ func runPlan(p *Plan, faultAt int) (*CaseJ, int) {
 		excl("shadow: state after phase one not predicted")
 	}
 	// ---- foreign / corrupt
-	if len(p.Foreign) > 0 {
-		c.Events = append(c.Events, EventJ{E: "foreign", Writes: p.Foreign, Fault: -1, Out: -1})
+	var late []Foreign
+	for _, f := range p.Foreign {
+		if f.Before == 0 {
+			late = append(late, f)
+		}
+	}
+	if len(late) > 0 {
+		c.Events = append(c.Events, EventJ{E: "foreign", Writes: late, Fault: -1, Out: -1})
 		exp := d1.clone()
-		for _, f := range p.Foreign {
+		for _, f := range late {
 			applyForeign(exp, f)
 		}
 		if !sameDB(df, exp, p.Tables) {
@@ -697,7 +765,11 @@ func runPlan(p *Plan, faultAt int) (*CaseJ, int) {
 		if ph.Replied {
 			out = ph.Status
 		}
-		fired, ops := journalOf(tr, st)
+		fired, ops, firstErr := journalOf3(tr, st)
+		if d.Hold != "" && firstErr >= 0 {
+			// the lock holder made that call fail (1205, not applied): the same observable as an injected failure there
+			fired, d.Fault = true, firstErr
+		}
 		after := dumpOf(ix.dumps[di])
 		afterUndo := normalUndo(tr.Steps[ix.dumps[di]].Undo)
 		if ph.Class != "ok" {
@@ -805,12 +877,19 @@ func runPlan(p *Plan, faultAt int) (*CaseJ, int) {
 		}
 	}
 	switch p.Stream {
-	case "c01", "c10repeat", "c10fault":
+	case "c01", "c10repeat", "c10fault", "c10race":
 		exp := d0.clone()
-		for _, f := range p.Foreign {
+		for at := 1; at <= len(p.Branches); at++ {
+			for _, f := range p.Foreign {
+				if f.Before == at {
+					applyForeign(exp, f)
+				}
+			}
+		}
+		for _, f := range late {
 			applyForeign(exp, f)
 		}
-		if allOK || p.Stream == "c10fault" {
+		if allOK || p.Stream == "c10fault" || p.Stream == "c10race" {
 			if !sameDB(fin, exp, p.Tables) {
 				bad("C01: after the rollback of every branch the tables differ from their contents before the global transaction")
 			}
@@ -891,7 +970,7 @@ func Run(args map[string]string) {
 		for _, sn := range []struct {
 			stream, arg string
 			def         int
-		}{{"c01", "n01", 40}, {"c10repeat", "n10r", 10}, {"c10fault", "n10f", 6}, {"c10marker", "n10m", 6}, {"c09", "n09", 30}, {"corrupt", "ncor", 4}} {
+		}{{"c01", "n01", 40}, {"c10repeat", "n10r", 10}, {"c10fault", "n10f", 6}, {"c10marker", "n10m", 6}, {"c09", "n09", 30}, {"corrupt", "ncor", 4}, {"c10race", "n10x", 0}} {
 			n := hutil.ArgInt(args, sn.arg, sn.def)
 			rng := hutil.NewRng(seed*1000003 + uint64(len(sn.stream))*7919 + uint64(sn.stream[2]))
 			for i := 0; i < n; i++ {
